@@ -69,6 +69,26 @@ def run_case(case, ctx):
             "padding-not-zero",
             f"bytes {bad_pad[:8]} carry non-zero padding/unassigned bits: {common.describe(case)} dumps={out.hex()} mask={bytes(mask[:end]).hex()}",
         )
+    # every way of writing the object, and every way of parsing the same bytes first, gives these bytes
+    forms = {"T.dumps(obj)": lambda: T.dumps(obj), "bytes(obj)": lambda: bytes(obj), "second obj.dumps()": lambda: obj.dumps()}
+
+    def via_write(call):
+        w = io.BytesIO(b"\xee" * 16)
+        w.seek(16)
+        call(w)
+        return w.getvalue()[16:]
+
+    forms["obj.write(stream at 16)"] = lambda: via_write(lambda w: obj.write(w))
+    forms["T.write(stream at 16, obj)"] = lambda: via_write(lambda w: T.write(w, obj))
+    if not gens.has_eof(sem.res(common.ROOT)):
+        forms["T(bytes).dumps()"] = lambda: T(bytes(data)).dumps()
+        forms["T(memoryview).dumps()"] = lambda: T(memoryview(data)).dumps()
+        forms["T.reads(bytearray).dumps()"] = lambda: T.reads(bytearray(data)).dumps()
+        forms["cs.read(name, stream).dumps()"] = lambda: cs.read("Root", io.BytesIO(data)).dumps()
+    for name_, call in forms.items():
+        o2 = lib(call)
+        if isinstance(o2, Err) or bytes(o2) != out:
+            raise Violation("dump-form-differs", f"{name_} gives {o2 if isinstance(o2, Err) else bytes(o2).hex()!r}, obj.dumps() gave {out.hex()}: {common.describe(case)}")
     feats = common.model_features(sem, common.ROOT)
     for f in feats:
         if not f.startswith("fields:"):
